@@ -48,6 +48,40 @@ def first_process(path, stmts, how, at, progress, dbname="D1"):
                 pass
             note(j)
         os._exit(0)          # (ran out of engine calls before the kill point: ends abruptly after the last statement)
+    elif how == "exc_again":
+        import gc
+
+        import snowflake.connector
+
+        kept = []
+        try:
+            with fakesnow.patch(db_path=path):
+                conn = snowflake.connector.connect(database=dbname, schema="S1")
+                kept.append(conn)                # the application still holds the connection after the block failed
+                note(0)
+                for j, s in enumerate(stmts[:at], 1):
+                    try:
+                        conn.cursor().execute(SQL[s])
+                    except Exception:
+                        pass
+                    note(j)
+                raise RuntimeError("body fails")
+        except RuntimeError:
+            pass
+        with fakesnow.patch(db_path=path):
+            conn2 = snowflake.connector.connect(database=dbname, schema="S1")
+            for j, s in enumerate(stmts[at:], at + 1):
+                try:
+                    conn2.cursor().execute(SQL[s])
+                except Exception:
+                    pass
+                note(j)
+        note(len(stmts))
+        # what the end of the process does to objects that are still alive: they are destroyed
+        del conn, conn2
+        kept.clear()
+        gc.collect()
+        os._exit(0)
     else:
         import snowflake.connector
 
@@ -85,9 +119,28 @@ def read_back(path, storage, dbname="D1"):
             c = cur.execute(f"select comment from information_schema.tables where table_schema = 'S1' and table_name = '{t.upper()}'").fetchall()
             ln = cur.execute(f"select character_maximum_length from information_schema.columns where table_schema = 'S1' and table_name = '{t.upper()}' and column_name = 'A'").fetchall()
             rec[t] = {"e": True, "n": int(n), "c": (c[0][0] if c and c[0][0] is not None else ""), "l": int(ln[0][0]) if ln and ln[0][0] is not None else 0}
+        rec["use"] = use_it(cur)
+    except Exception as e:
+        rec.setdefault("use", "bad:connect:" + type(e).__name__)
     finally:
         fs.duck_conn.close()
     return rec
+
+
+def use_it(cur) -> str:
+    """the second process goes on working with what it found"""
+    try:
+        cur.execute("create table vt_after (a varchar(7), b int) comment = 'cc'")
+        cur.execute("insert into vt_after values ('x', 1)")
+        c = cur.execute("select comment from information_schema.tables where table_schema = 'S1' and table_name = 'VT_AFTER'").fetchall()
+        ln = cur.execute("select character_maximum_length from information_schema.columns where table_schema = 'S1' and table_name = 'VT_AFTER' and column_name = 'A'").fetchall()
+        n = cur.execute("select count(*) from vt_after").fetchall()
+        cur.execute("drop table vt_after")
+        if c != [("cc",)] or [int(x[0]) for x in ln if x[0] is not None] != [7] or n != [(1,)]:
+            return f"bad:metadata:{c}:{ln}:{n}"[:80]
+        return "ok"
+    except Exception as e:
+        return "bad:" + type(e).__name__
 
 
 class C18(Prop):
@@ -105,7 +158,7 @@ class C18(Prop):
     ]
 
     def consts(self, tier):
-        return {"MaxLen": 4, "MaxKill": 40, "StmtsUsed": set(SQL), "HowUsed": {"kill", "exit_clean", "exit_exception"}}
+        return {"MaxLen": 4, "MaxKill": 40, "StmtsUsed": set(SQL), "HowUsed": {"kill", "exit_clean", "exit_exception", "exc_again"}}
 
     def model_checks(self, tier):
         c = {"MaxLen": 3, "MaxKill": 3, "StmtsUsed": {"ct1", "i1", "cm1", "begin", "commit", "rollback"}, "Devs": set(), "Depth": 2, "MaxFails": 0, "SampleOneIn": 1,
@@ -127,6 +180,9 @@ class C18(Prop):
             # every way of leaving without a kill: clean exit and exception x transactions x metadata statements x spelling of the database name
             dict(name="exits", mode="edges", sample=None if big else 600,
                  consts=dict(base, MaxLen=4, MaxKill=1, StmtsUsed={"ct1", "i1", "cm1", "begin", "commit", "rollback"}, HowUsed={"exit_clean", "exit_exception"})),
+            # a block left by an exception while its connection is still referenced, then a second block in the same process
+            dict(name="again", mode="edges", sample=None if big else 300,
+                 consts=dict(base, MaxLen=4 if big else 3, MaxKill=1, StmtsUsed={"ct1", "i1", "cm1", "begin", "commit"}, HowUsed={"exc_again"})),
         ]
 
     def nontrivial(self, ops):
@@ -152,8 +208,9 @@ class C18(Prop):
                         except Exception:
                             pass
                     rec = read_back(None, "memory")
+                    use = rec.pop("use", "bad:none")
                     files = "some" if os.listdir(path) or [f for f in os.listdir(os.getcwd()) if f.endswith(".db")] else "none"
-                    ev.append({"op": op, "obs": {"done": len(op["stmts"]), "rec": rec, "files": files}})
+                    ev.append({"op": op, "obs": {"done": len(op["stmts"]), "rec": rec, "files": files, "use": use}})
                     fs.duck_conn.close()
                     continue
                 pid = os.fork()
@@ -168,7 +225,8 @@ class C18(Prop):
                 os.waitpid(pid, 0)
                 done = int(open(progress).read().strip() or -1)
                 rec = read_back(path, "path", "d1" if op["spell"].endswith("lower") else "D1")
-                ev.append({"op": op, "obs": {"done": done, "rec": rec, "files": "some" if os.listdir(path) else "none"}})
+                use = rec.pop("use", "bad:none")
+                ev.append({"op": op, "obs": {"done": done, "rec": rec, "files": "some" if os.listdir(path) else "none", "use": use}})
             finally:
                 shutil.rmtree(tmp, ignore_errors=True)
         return ev
